@@ -523,7 +523,8 @@ func (x *Exec) equal(st *State, a, b *Val, t types.Type) (*Term, error) {
 			if (a.C[0].IsConst() && a.C[0].Val == 0) || (b.C[0].IsConst() && b.C[0].Val == 0) {
 				return tb.Eq(a.C[0], b.C[0]), nil
 			}
-			return tb.And(tb.Eq(a.C[0], b.C[0]), tb.Eq(a.C[1], b.C[1])), nil
+			// two nil interfaces are equal whatever their (meaningless) data words hold
+			return tb.And(tb.Eq(a.C[0], b.C[0]), tb.Or(tb.Eq(a.C[0], tb.BV(32, 0)), tb.Eq(a.C[1], b.C[1]))), nil
 		}
 	case *types.Struct:
 		c := tb.True
